@@ -222,10 +222,14 @@ def xlsx_raw_rows(table):
 
 
 # ---------------------------------------------------------------------------------- text formats
-def delimited_text(rows):
-    """Default CID dialect: ',' delimiter, '"' quote, doubled quotes, CRLF."""
+def delimited_text(rows, quote='"', escape='"'):
+    """CID dialect: ',' delimiter, CRLF; default '"' quote with doubled quotes; another quote character and/or an
+    escape character different from the quote character on request (written by Python's csv.writer)."""
     out = io.StringIO()
-    csv.writer(out).writerows(rows)
+    if escape == quote:
+        csv.writer(out, quotechar=quote, doublequote=True).writerows(rows)
+    else:
+        csv.writer(out, quotechar=quote, doublequote=False, escapechar=escape).writerows(rows)
     return out.getvalue()
 
 
